@@ -339,6 +339,16 @@ func c13ImplD(z0, z1 int64, ops []int64) []int64 {
 				if (a > 0 && int64(len(w)) >= a) || len(w) >= c13MaxWalk {
 					break
 				}
+				if len(w) == 1+(i/4)%3 && (i/4)%5 < 3 {
+					// the SAME sequence value walked again while this walk is under way (nested range, two iter.Pull
+					// cursors): runs of one Seq are independent, the outer walk must go on where it was
+					k := 0
+					for range seqD {
+						if k++; k >= 1+(i/4)%4 && (i/4)%2 == 1 || k >= c13MaxWalk {
+							break
+						}
+					}
+				}
 			}
 			if len(w) >= c13MaxWalk {
 				return []int64{HANG}
@@ -480,6 +490,16 @@ func c13ImplS(z0 int64, ops []int64) []int64 {
 				w = append(w, int64(v))
 				if (a > 0 && int64(len(w)) >= a) || len(w) >= c13MaxWalk {
 					break
+				}
+				if len(w) == 1+(i/4)%3 && (i/4)%5 < 3 {
+					// the SAME sequence value walked again while this walk is under way (nested range, two iter.Pull
+					// cursors): runs of one Seq are independent, the outer walk must go on where it was
+					k := 0
+					for range seqS {
+						if k++; k >= 1+(i/4)%4 && (i/4)%2 == 1 || k >= c13MaxWalk {
+							break
+						}
+					}
 				}
 			}
 			if len(w) >= c13MaxWalk {
